@@ -7,6 +7,7 @@ import (
 	"fmt"
 	"testing"
 
+	"github.com/welllog/golib/mapz"
 	"pgregory.net/rapid"
 
 	"verif/harness/internal/conc"
@@ -146,4 +147,172 @@ func init() {
 		}
 		return runSched(c, &pb.Rec{})
 	})
+}
+
+// ---- large snapshots: one reader call over hundreds of keys against one atomic bulk writer call.
+// Internal batching (a lock released and re-taken half-way through a large request) shows up as a
+// snapshot that is neither the state before nor the state after the writer.
+
+type bigCase struct {
+	N      int
+	Reader string // getwithmap keys values range all
+	Writer string // mapset clear delete mapdelete
+	Slots  []conc.Slot
+}
+
+func genBig(t *rapid.T) bigCase {
+	return bigCase{
+		N:      rapid.SampledFrom([]int{5, 64, 127, 128, 129, 257, 300, 700}).Draw(t, "n"),
+		Reader: rapid.SampledFrom([]string{"getwithmap", "getwithmap", "keys", "values", "range", "all"}).Draw(t, "reader"),
+		Writer: rapid.SampledFrom([]string{"mapset", "mapset", "clear", "delete", "mapdelete"}).Draw(t, "writer"),
+		Slots:  conc.GenSlots(t, 2, 10),
+	}
+}
+
+func runBig(c bigCase, r *pb.Rec) error {
+	if c.N < 1 || c.N > 5000 {
+		return nil
+	}
+	conc.Reset()
+	s := newKV(kvCase{})
+	before, after := map[int]int{}, map[int]int{}
+	for k := 0; k < c.N; k++ {
+		s.Set(k, 1)
+		before[k] = 1
+	}
+	var writer func()
+	switch c.Writer {
+	case "mapset":
+		for k := range before {
+			after[k] = 2
+		}
+		writer = func() {
+			s.Map(func(m mapz.KV[int, int]) {
+				for k := range m {
+					m[k] = 2
+				}
+			})
+		}
+	case "clear":
+		writer = s.Clear
+	case "delete", "mapdelete":
+		var ks []int
+		for k := 0; k < c.N; k++ {
+			if k%2 == 0 {
+				ks = append(ks, k)
+			} else {
+				after[k] = 1
+			}
+		}
+		if c.Writer == "delete" {
+			writer = func() { s.Delete(ks...) }
+		} else {
+			writer = func() {
+				s.Map(func(m mapz.KV[int, int]) {
+					for _, k := range ks {
+						delete(m, k)
+					}
+				})
+			}
+		}
+	default:
+		return nil
+	}
+	got := map[int]int{}
+	var reader func()
+	switch c.Reader {
+	case "getwithmap":
+		reader = func() {
+			req := map[int]int{}
+			for k := 0; k < c.N+3; k++ {
+				req[k] = -1
+			}
+			s.GetWithMap(req)
+			for k, v := range req {
+				if v != -1 {
+					got[k] = v
+				}
+			}
+		}
+	case "keys":
+		reader = func() {
+			for _, k := range s.Keys() {
+				got[k]++
+			}
+		}
+	case "values":
+		reader = func() {
+			for i, v := range s.Values() {
+				got[i] = v
+			}
+		}
+	case "range":
+		reader = func() { s.Range(func(k, v int) bool { got[k] = v; return true }) }
+	case "all":
+		reader = func() { s.All()(func(k, v int) bool { got[k] = v; return true }) }
+	default:
+		return nil
+	}
+	res := conc.RunSlots([]func(){reader, writer}, c.Slots, maxSteps)
+	if res.Budget {
+		r.Class("INCONCLUSIVE: step budget exhausted")
+		return nil
+	}
+	if res.Err != nil {
+		return res.Err
+	}
+	same := func(want map[int]int) bool {
+		switch c.Reader {
+		case "keys":
+			if len(got) != len(want) {
+				return false
+			}
+			for k, n := range got {
+				if _, ok := want[k]; !ok || n != 1 {
+					return false
+				}
+			}
+			return true
+		case "values":
+			if len(got) != len(want) {
+				return false
+			}
+			cnt := map[int]int{}
+			for _, v := range want {
+				cnt[v]++
+			}
+			for _, v := range got {
+				cnt[v]--
+			}
+			for _, n := range cnt {
+				if n != 0 {
+					return false
+				}
+			}
+			return true
+		}
+		if len(got) != len(want) {
+			return false
+		}
+		for k, v := range want {
+			if got[k] != v {
+				return false
+			}
+		}
+		return true
+	}
+	if !same(before) && !same(after) {
+		return fmt.Errorf("%s over %d keys concurrent with one %s call observed %d entries that are neither the map before nor the map after the writer (no single instant)", c.Reader, c.N, c.Writer, len(got))
+	}
+	r.ClassIf(same(after) && !same(before), "snapshot taken after the writer")
+	r.ClassIf(same(before), "snapshot taken before the writer")
+	r.ClassIf(c.N > 128, "more than 128 keys")
+	r.NonTrivialIf(c.N > 128)
+	return nil
+}
+
+func init() {
+	pb.Register("safekv_big_snapshot", pb.Options{Base: 1500, Required: []string{"more than 128 keys", "snapshot taken after the writer", "snapshot taken before the writer"},
+		Rule: "one snapshot call (GetWithMap / Keys / Values / Range / All) over 5..700 keys in one thread against one atomic bulk writer call (Map setting every key, Clear, Delete of half the keys, Map deleting half) in another, under generated schedules of the lock-level scheduling points; oracle: the observation equals the map before or the map after the writer; non-trivial = more than 128 keys"},
+		genBig, runBig)
 }
